@@ -39,6 +39,7 @@ end Reg
 inductive Cause where
   | duplicated | notFound | outOfBounds | negative | zero | nil | tooBig | tooSmall
   | receiverIsSender | invalidType
+  | greaterThan | lowerThan      -- `*ErrGreaterThen` / `*ErrLowerThen` of the attribute constructors
   deriving Repr, DecidableEq, Inhabited
 
 inductive Out where
@@ -150,7 +151,7 @@ inductive Op where
   | busRemoveAllIfaces (b : Nat)
   | busSetBuilder (b : Nat) (c : Option Nat)
   | builderNew (c : Nat)
-  | nodeNew (n : Nat) (name : String) (nid : Nat) (ifaces : List Nat)
+  | nodeNew (n : Nat) (name : String) (nid : Nat) (count : Int) (ifaces : List Nat)
   | nodeRename (n : Nat) (name : String)
   | nodeSetId (n : Nat) (nid : Nat)
   | nodeAddIface (n i : Nat)
@@ -302,6 +303,13 @@ def renumberNodeInBuses (buses : AMap BusE) (old new : Nat) (n : Nat) : List Nat
     | some e => renumberNodeInBuses (buses.set b { e with nodeIDs := (e.nodeIDs.remove old).add new n }) old new n rest
     | none => renumberNodeInBuses buses old new n rest
 
+/-- `NodeInterface.addReceivedMessage(msg)` (shared by `AddReceivedMessage` / `AddReceiver`) -/
+def addRecvCore (g : G) (i : Nat) (ifc : IfaceE) (m : Nat) (msg : MsgE) : G × Out :=
+  if ifc.sent.has m then (g, .err .receiverIsSender)
+  else
+    ({ g with ifaces := g.ifaces.set i { ifc with received := ifc.received.add m m },
+              msgs := g.msgs.set m { msg with receivers := msg.receivers.add ifc.node i } }, .ok)
+
 def step (g : G) : Op → G × Out
   | .netNew n name =>
     if (g.nets.get n).isSome then (g, .unsupported)
@@ -410,8 +418,12 @@ def step (g : G) : Op → G × Out
   | .builderNew c =>
     if (g.builders.get c).isSome then (g, .unsupported)
     else ({ g with builders := g.builders.set c {} }, .ok)
-  | .nodeNew n name nid ifs =>
-    if (g.nodes.get n).isSome ∨ ifs.any (fun i => (g.ifaces.get i).isSome) ∨ ¬ ifs.Nodup then (g, .unsupported)
+  | .nodeNew n name nid count ifs =>
+    -- `NewNode(name, id, interfaceCount)`: `make([]*NodeInterface, interfaceCount)` panics
+    -- for a negative count; `ifs` are the harness ids of the `count` new interfaces
+    if count < 0 then (g, .panic)
+    else if count ≠ (ifs.length : Int) then (g, .unsupported)
+    else if (g.nodes.get n).isSome ∨ ifs.any (fun i => (g.ifaces.get i).isSome) ∨ ¬ ifs.Nodup then (g, .unsupported)
     else
       let ifaces := (List.zip ifs (List.range ifs.length)).foldl
         (fun acc p => acc.set p.1 { node := n, number := (p.2 : Int) }) g.ifaces
@@ -629,17 +641,22 @@ def step (g : G) : Op → G × Out
           | none => g.buses
       ({ g with buses := buses, msgs := clearSenders g.msgs ms,
                 ifaces := g.ifaces.set i { ifc with sent := [], sentNames := [], sentIDs := [], sentStatic := [] } }, .ok)
-  | .ifaceAddRecv i m | .msgAddReceiver m i =>
+  | .ifaceAddRecv i m =>
+    -- `NodeInterface.AddReceivedMessage(message)`: the callee is the interface
+    match g.ifaces.get i with
+    | none => (g, .unsupported)
+    | some ifc =>
+      match g.msgs.get m with
+      | none => (g, .err .nil)
+      | some msg => addRecvCore g i ifc m msg
+  | .msgAddReceiver m i =>
+    -- `Message.AddReceiver(receiver)`: the callee is the message
     match g.msgs.get m with
-    | none => (g, if (g.ifaces.get i).isSome then .err .nil else .unsupported)
+    | none => (g, .unsupported)
     | some msg =>
       match g.ifaces.get i with
       | none => (g, .err .nil)
-      | some ifc =>
-        if ifc.sent.has m then (g, .err .receiverIsSender)
-        else
-          ({ g with ifaces := g.ifaces.set i { ifc with received := ifc.received.add m m },
-                    msgs := g.msgs.set m { msg with receivers := msg.receivers.add ifc.node i } }, .ok)
+      | some ifc => addRecvCore g i ifc m msg
   | .ifaceRemoveRecv i m =>
     match g.ifaces.get i with
     | none => (g, .unsupported)
@@ -673,8 +690,9 @@ def step (g : G) : Op → G × Out
     else ({ g with attrs := g.attrs.set a { kind := .str } }, .ok)
   | .attrNewInt a dflt mn mx =>
     if (g.attrs.get a).isSome then (g, .unsupported)
-    else if mn > mx then (g, .err .outOfBounds)
-    else if dflt < mn ∨ dflt > mx then (g, .err .outOfBounds)
+    else if mn > mx then (g, .err .greaterThan)
+    else if dflt > mx then (g, .err .greaterThan)
+    else if dflt < mn then (g, .err .lowerThan)
     else ({ g with attrs := g.attrs.set a { kind := .int mn mx } }, .ok)
   | .attrNewEnum a values =>
     if (g.attrs.get a).isSome then (g, .unsupported)
